@@ -517,6 +517,14 @@ func (g *gstate) opSetVar(h *hasher, f int) {
 		h.i(len(fc.Coords()))
 		return
 	}
+	if len(info.MidCoords) > 0 && g.rng.Chance(1, 4) {
+		// the slice every goroutine of the round shares (read-only for the library)
+		fc.SetCoords(info.MidCoords)
+		for _, c := range fc.Coords() {
+			h.u64(uint64(uint16(c)))
+		}
+		return
+	}
 	var vs []font.Variation
 	for _, a := range info.Axes {
 		if g.rng.Chance(2, 3) {
